@@ -140,33 +140,33 @@ impl<'a> Cover<'a> {
             if !is_nan(self.o, min) {
                 for v in &vs {
                     if cmp(self.o, min, v, self.tz) == Some(Ordering::Greater) {
-                        return Err((format!("c07:{what}-min-not-lower-bound:{label}"), format!("{what} min {min:02x?} > covered value {v:02x?} (values {:02x?})", vs)));
+                        return Err((format!("c07:{what}-bound-unsound:{label}"), format!("{what} min {min:02x?} > covered value {v:02x?} (values {:02x?})", vs)));
                     }
                 }
                 if min_exact == Some(true) && !vs.is_empty() && !vs.iter().any(|v| cmp(self.o, min, v, false) == Some(Ordering::Equal)) {
                     return Err((format!("c07:{what}-min-exact-not-attained:{label}"), format!("{what} min {min:02x?} flagged exact but not among values {:02x?}", vs)));
                 }
             } else if !vs.is_empty() {
-                return Err((format!("c07:{what}-min-is-nan:{label}"), format!("{what} min is NaN although non-NaN values {:02x?} are covered", vs)));
+                return Err((format!("c07:{what}-bound-unsound:{label}"), format!("{what} min is NaN although non-NaN values {:02x?} are covered", vs)));
             }
         }
         if let Some(max) = max {
             if !is_nan(self.o, max) {
                 for v in &vs {
                     if cmp(self.o, max, v, self.tz) == Some(Ordering::Less) {
-                        return Err((format!("c07:{what}-max-not-upper-bound:{label}"), format!("{what} max {max:02x?} < covered value {v:02x?} (values {:02x?})", vs)));
+                        return Err((format!("c07:{what}-bound-unsound:{label}"), format!("{what} max {max:02x?} < covered value {v:02x?} (values {:02x?})", vs)));
                     }
                 }
                 if max_exact == Some(true) && !vs.is_empty() && !vs.iter().any(|v| cmp(self.o, max, v, false) == Some(Ordering::Equal)) {
                     return Err((format!("c07:{what}-max-exact-not-attained:{label}"), format!("{what} max {max:02x?} flagged exact but not among values {:02x?}", vs)));
                 }
             } else if !vs.is_empty() {
-                return Err((format!("c07:{what}-max-is-nan:{label}"), format!("{what} max is NaN although non-NaN values {:02x?} are covered", vs)));
+                return Err((format!("c07:{what}-bound-unsound:{label}"), format!("{what} max is NaN although non-NaN values {:02x?} are covered", vs)));
             }
         }
         if let (Some(min), Some(max)) = (min, max) {
             if cmp(self.o, min, max, self.tz) == Some(Ordering::Greater) {
-                return Err((format!("c07:{what}-min-greater-than-max:{label}"), format!("{what} min {min:02x?} > max {max:02x?}")));
+                return Err((format!("c07:{what}-bound-unsound:{label}"), format!("{what} min {min:02x?} > max {max:02x?}")));
             }
         }
         Ok(())
